@@ -20,12 +20,12 @@ CHECKS = {
             "DESIGN.md section 3 C01"),
     "C02": ("exploration",
             "Hypothesis-generated synthetic ROMS files and positions; differential against an independent C-grid interpolator + convexity, linear-exactness and subgrid-vs-full-grid metamorphic relations",
-            "Synthetic grid/forcing files (sizes, N incl. 1, both transforms, random stretching, bathymetries, masks with garbage on land faces, f8/f4/packed storage, legal subgrids incl. negative spellings) are read by the real Grid and Forcing; velocity and scalar forcing at 24-48 positions (uniform, edges, corners, +-1 ulp, rim; depths on levels, above the surface, below the bottom) are compared with the reference, with the node range, with the closed form for linear fields, and between subgrid and full grid; the sampled frame is the first or (after five clock/forcing updates) the second, which may live in a file of its own with its own storage and packing parameters; in two fifths of the cases some particles die after the forcing was evaluated and are removed from the state (what a sparse output record does) before the velocity of the survivors is requested; in a third of the cases the vertical set-up comes from an explicit Vinfo that differs from what the file records (other transform and critical depth, stretching from parameters), in half of the second-frame cases the particles change depth just before the last forcing update, and in half of the masked cases only the second frame has non-zero values on land faces.",
+            "Synthetic grid/forcing files (sizes, N incl. 1, both transforms, random stretching, bathymetries, masks with garbage on land faces, f8/f4/packed storage, legal subgrids incl. negative spellings) are read by the real Grid and Forcing; velocity and scalar forcing at 24-48 positions (uniform, edges, corners, +-1 ulp, rim; depths on levels, above the surface, below the bottom) are compared with the reference, with the node range, with the closed form for linear fields, and between subgrid and full grid; the sampled frame is the first or (after five clock/forcing updates) the second, which may live in a file of its own with its own storage and packing parameters; in two fifths of the cases some particles die after the forcing was evaluated and are removed from the state (what a sparse output record does) before the velocity of the survivors is requested; in a third of the cases the vertical set-up comes from an explicit Vinfo that differs from what the file records (other transform and critical depth, stretching from parameters), in half of the second-frame cases the particles change depth just before the last forcing update, and in half of the masked cases only the second frame has non-zero values on land faces; a third of the cases are backwards runs (the clock starts at the later frame), where the velocity felt is compared with its sign turned.",
             "At exactly half-way positions either neighbouring cell is accepted as the particle's own cell; tolerance 1e-12 (f8) / 8*2^-23 (f4, packed).",
             "DESIGN.md section 3 C02"),
     "C03": ("exploration",
             "Hypothesis-generated frame/file layouts; per-step differential against an independent 'lerp between bracketing frames' reference at static probes",
-            "Frame layouts (gaps 1..12 steps incl. all-equal-to-dt, irregular), every kind of partition into files, start offsets, run lengths, both directions, 0-2 scalar fields, probes entering up to five steps into the run, f4/f8 or a storage per file (float or packed with per-file scale_factor/add_offset) are generated; Forcing is driven step by step exactly as Model.update orders the calls, and velocity (also 0.5 and 1.0 step ahead) and scalars are compared with the reference after every step. Exploration: finds layout-dependent hand-over errors, proves nothing beyond the cases run.",
+            "Frame layouts (gaps 1..12 steps incl. all-equal-to-dt, irregular), every kind of partition into files, start offsets, run lengths, both directions, 0-2 scalar fields, probes entering up to five steps into the run, f4/f8 or a storage per file (float or packed with per-file scale_factor/add_offset) are generated; Forcing is driven step by step exactly as Model.update orders the calls, and velocity (also a drawn pattern of look-ahead requests per step: one fraction only, the same fraction twice, 0.5 then 1.0, RK4's 0.5, 0.5, 1.0) and scalars are compared with the reference after every step. Exploration: finds layout-dependent hand-over errors, proves nothing beyond the cases run.",
             "Reference interpolator in vlib/roms.py written from the property text; tolerance (maxgap+4)*4*eps; reversed runs accept either bracketing frame for scalars between frame steps.",
             "DESIGN.md section 3 C03"),
     "C04": ("exploration",
@@ -60,8 +60,8 @@ CHECKS = {
             "DESIGN.md section 3 C09"),
     "C10": ("exploration",
             "Hypothesis-generated reversed simulations; metamorphic relation: reversed run == forward run on the time-mirrored, sign-flipped data, record by record; clock oracle S - k*dt",
-            "Each generated time-reversed simulation (several forcing files, irregular frame gaps incl. 1 step, several release times, discrete/continuous, EF/RK2/RK4, scripted kills, scalar forcing; in a third of the cases forcing frames that fall between model steps) is paired with a forward simulation whose frames are negated and mirrored in time and whose release times are mirrored; pids, positions and state must agree in every record, the reversed run's record times must read S - k*period*dt and each particle must first appear in the record of its stated release time.",
-            "f8 forcing/output; tolerance 1e-9 (the two runs interpolate in time from opposite ends).",
+            "Each generated time-reversed simulation (several forcing files, irregular frame gaps incl. 1 step, several release times, discrete/continuous, EF/RK2/RK4, scripted kills, scalar forcing; in a third of the cases forcing frames that fall between model steps; in a third the velocity packed as 16-bit integers saturating at both ends of the integer range) is paired with a forward simulation whose frames are negated and mirrored in time and whose release times are mirrored; pids, positions and state must agree in every record, the reversed run's record times must read S - k*period*dt and each particle must first appear in the record of its stated release time.",
+            "f8 forcing/output; tolerance 1e-9 (the two runs interpolate in time from opposite ends); for packed forcing the mirrored run reads the negated decoded field as f4 and the tolerance is the accumulated float32 rounding bound.",
             "DESIGN.md section 3 C10"),
     "C11": ("exploration",
             "Hypothesis-generated parameters and generator seeds; statistical oracle with explicit 6.5-sigma acceptance bands + exact metamorphic scaling relations under a shared seed",
@@ -70,12 +70,12 @@ CHECKS = {
             "DESIGN.md section 3 C11"),
     "C14": ("exploration",
             "Hypothesis-generated base scenario + one generated variant (drop/add/permute rows, kill others, whole-step time shift, repeat); metamorphic relation: per-particle trajectories bit-identical up to renumbering",
-            "Base scenarios have depth- and position-dependent currents over variable bathymetry, land, scripted deaths by tag followed by output steps, lifetimes, late releases, scalar forcing, an ageing IBM, both layouts and split files; the generator has fixed shares of directed flavours: coastal (release next to land, onshore flow faster than a cell per step, particles switched off or killed early that linger in the state), stage_cross (deaths seen by a sparse record while Runge-Kutta stages leave the start cell), units_shift (forcing time axis in days/hours since another epoch, whole-step shifts), border (a switched-off particle and another one leaving the grid), empty_gap (the model running empty until a later release), dense_release (dense layout, a death, then a release; a tag must stay in one column of the particle axis); every release row carries a unique tag so that trajectories are matched after renumbering; all variables of every record must be bit-identical (f8).",
+            "Base scenarios have depth- and position-dependent currents over variable bathymetry, cell sizes that differ between cells (two thirds of the cases), land, scripted deaths by tag followed by output steps, lifetimes, late releases, scalar forcing, an ageing IBM, both layouts and split files; the generator has fixed shares of directed flavours: coastal (release next to land, onshore flow faster than a cell per step, particles switched off or killed early that linger in the state), stage_cross (deaths seen by a sparse record while Runge-Kutta stages leave the start cell), units_shift (forcing time axis in days/hours since another epoch, whole-step shifts), border (a switched-off particle and another one leaving the grid), empty_gap (the model running empty until a later release), dense_release (dense layout, a death, then a release; a tag must stay in one column of the particle axis); every release row carries a unique tag so that trajectories are matched after renumbering; all variables of every record must be bit-identical (f8).",
             "mult = 1 for every row (unique tags); diffusion off.",
             "DESIGN.md section 3 C14"),
     "C15": ("exploration",
             "Hypothesis-generated bathymetries, depths and vertical forcing against the validity predicate 0 <= Z' <= h(start cell); exact reflected value for advection-only cases",
-            "The real Tracker on a plug-in grid with generated bathymetry (ratios up to 5000), start depths incl. exactly 0 and h, vertical diffusion and/or advection within the property's premise, all horizontal schemes with flow into other cells, 1-4 steps; part 'stock' repeats it on the stock ROMS Grid built from a generated file (random / eta-sloping / xi-sloping bathymetry, subgrids with i0 != j0) with the reference depth read from the generated bathymetry; between steps some particles may die and be removed while as many new ones are released; the file's critical depth hc takes any value.",
+            "The real Tracker on a plug-in grid with generated bathymetry (ratios up to 5000), start depths incl. exactly 0 and h, vertical diffusion and/or advection within the property's premise, all horizontal schemes with flow into other cells, 1-4 steps; part 'stock' repeats it on the stock ROMS Grid built from a generated file (random / eta-sloping / xi-sloping bathymetry, subgrids with i0 != j0) with the reference depth read from the generated bathymetry; between steps some particles may die and be removed while as many new ones are released; the file's critical depth hc takes any value. Part 'run' runs ladim.main with vertical advection and w read from 1-3 generated forcing files, each stored in its own way (f8, f4, three packings), w on rho or w levels, with or without horizontal flow, sparse or dense output: every record keeps 0 <= Z <= h(cell in the previous record), no depth changes by more than the largest |w| on the files times dt, and with vertical movement off Z is bitwise constant.",
             "Premise enforced with a 6.5-sigma margin on the random part; only particles starting inside [0, h] are judged; a particle exactly on a cell edge may be given either neighbouring cell.",
             "DESIGN.md section 3 C15"),
     "C17": ("exploration",
@@ -90,7 +90,7 @@ CHECKS = {
             "DESIGN.md section 3 C18"),
     "C19": ("exploration",
             "Hypothesis-generated run lengths, periods, plug-in spellings and cold/warm starts; call-log grammar + state snapshots from recording plug-ins in every module slot",
-            "A recording module (thin subclasses of the stock Grid, Forcing, ParticleReleaser, Tracker, Output and a scripted IBM) is installed in any subset of the six slots under a generated spelling (absolute path with/without .py, relative path, bare name in the working directory with a same-named decoy on sys.path, module name on sys.path); the update calls must follow release, forcing, output, tracker, ibm once per step (plus the output-less catch-up step of a warm start), snapshots taken inside the calls must be consistent with that order, kills take effect from the next record and are never undone in any later call or record, close is called once per module, the decoy never runs, and - plug-in files of different slots may share one file name in different directories - every logged call comes from the file configured for its slot; the first release may come some steps after the start (the model steps with an empty state) and the scalar forcing value in every record must be the one of the frame in force at the record's time. Inside every call the model clock a plug-in can read must be the time of that step (also in the warm start's catch-up step). Part 'legacy': a version-1 file naming a recording IBM by path, with or without a variables list.",
+            "A recording module (thin subclasses of the stock Grid, Forcing, ParticleReleaser, Tracker, Output and a scripted IBM) is installed in any subset of the six slots under a generated spelling (absolute path with/without .py, relative path, bare name in the working directory with a same-named decoy on sys.path, module name on sys.path); the update calls must follow release, forcing, output, tracker, ibm once per step (plus the output-less catch-up step of a warm start), snapshots taken inside the calls must be consistent with that order, kills take effect from the next record and are never undone in any later call or record (the records are also read back from the files: none holds an identifier seen dead before it was written, also when nobody is left alive), close is called once per module, the decoy never runs, and - plug-in files of different slots may share one file name in different directories - every logged call comes from the file configured for its slot; the first release may come some steps after the start (the model steps with an empty state) and the scalar forcing value in every record must be the one of the frame in force at the record's time. Inside every call the model clock a plug-in can read must be the time of that step (also in the warm start's catch-up step). Part 'legacy': a version-1 file naming a recording IBM by path, with or without a variables list.",
             "Recording classes log and delegate to the stock implementation.",
             "DESIGN.md section 3 C19"),
     "C20": ("fault_enumeration",
